@@ -89,6 +89,21 @@ class C09(vlib.Check):
         for s in words(b'a \x00\t', 8 if thorough else 6):
             for d in (dsets if len(s) <= 4 or thorough else dsets[:2]):
                 yield 'tokenize %s %s' % (hx(s), d)
+        # delimiter membership must be exact on all 256 byte values: every subject byte against delimiter sets,
+        # in particular bytes that alias a delimiter modulo 128, differ from it in one bit, or are its neighbours
+        for dset in ([0x20], [0x20, 0x09, 0x0d, 0x0a], [0x3a], [0x2c, 0x3b], [0x7f], [0x01]):
+            dh = ''.join('%02x' % d for d in dset)
+            probe = set()
+            for d in dset:
+                probe |= {d ^ 0x80, d ^ 0x20, d ^ 0x40, d ^ 0x01, (d + 1) & 0xFF, (d - 1) & 0xFF, d | 0x80, d & 0x7F}
+            probe -= set(dset)
+            probe.discard(0)
+            for b in sorted(probe):
+                yield 'tokenize %s %s' % (hx(bytes([0x61, b, 0x62, dset[0], b, b, 0x63])), dh)
+                yield 'tokenize %s %s' % (hx(bytes([b, 0x61, dset[-1], dset[0], 0x62, b])), dh)
+        if thorough:
+            for b in range(1, 256):
+                yield 'tokenize %s 2009' % hx(bytes([0x61, b, 0x62, 0x20, b, 0x63]))
         # ---- replace, exhaustive small
         rl = 6 if thorough else 4
         for s in words(b'a,\x00', rl):
